@@ -19,10 +19,12 @@ theorem C13_ring_generated (D : Desc) (s : St) (c : Nat) (t : CmdType) :
     checkUnsolicitedBuffers D s = Gen.check_unsolicited_buffers D s :=
   ⟨pushUnsolicited_generated D s c t, checkUnsolicitedBuffers_generated D s⟩
 
-/-- the counters this property's theorems keep as unbounded natural numbers (`unsolicited_cmd_buffer_head`, `unsolicited_cmd_buffer_items_count`, `unsolicited_cmd_buffer_tail`) are declared
+/-- the counters this property's theorems keep as unbounded natural numbers (`index`, `position`, `unsolicited_cmd_buffer_head`, `unsolicited_cmd_buffer_items_count`, `unsolicited_cmd_buffer_tail`) are declared
 `size_t` in `cat.h` — 64 bits on the target, so they cannot wrap on any buffer, table or line that exists; the widths
 are read from the struct declarations on every run (translator item T21) -/
 theorem C13_counters_unbounded :
+    Gen.width_uns_index = 64 ∧
+    Gen.width_uns_position = 64 ∧
     Gen.width_uns_unsolicited_cmd_buffer_head = 64 ∧
     Gen.width_uns_unsolicited_cmd_buffer_items_count = 64 ∧
     Gen.width_uns_unsolicited_cmd_buffer_tail = 64 := by decide
